@@ -27,6 +27,24 @@ def entry_points(prog):
 make_stop = c05.make_stop
 
 
+def leaf_count(p, nm):
+    """every supplied leaf takes part: a leaf list longer (or shorter) than the index list is
+    rejected (surplus leaves would otherwise be ignored by the root reconstruction)."""
+    h = p.fn(BMP + nm)
+    idx_param, leaf_param = (2, 3) if nm == "get_root" else (3, 2)
+    cnt, chow = False, "%s does not reject leaves.len() != indexes.len()" % nm
+    for cs in cmp_sites(h):
+        sa = h.slice_of_operand(cs["a"], at=(cs["bb"], 10**6))
+        sb = h.slice_of_operand(cs["b"], at=(cs["bb"], 10**6))
+        pa, pb = set(sa["args"]), set(sb["args"])
+        if {frozenset(pa), frozenset(pb)} != {frozenset([idx_param]), frozenset([leaf_param])}:
+            continue
+        okc, howc, rel = cmp_reject_relation(h, cs)
+        if okc and rel == "Ne":
+            cnt, chow = True, "%s: indexes.len() != leaves.len() -> Err: %s" % (nm, howc)
+    return cnt, chow
+
+
 def r1_rejection(ctx):
     p = ctx.p
     f = p.fn(MT + "verify")
@@ -77,6 +95,8 @@ def r1_rejection(ctx):
         ctx.ob("R1", "%s-validates-indexes" % nm, ok and wired,
                "%s: map_indexes(indexes, self.depth)? guards every Ok exit: " % nm + how if ok and wired else
                "%s does not validate the indexes with map_indexes(indexes, self.depth)?" % nm, h, mi[1]["sp"]["at"])
+        cnt, chow = leaf_count(p, nm)
+        ctx.ob("R1", "%s-leaf-count" % nm, cnt, chow, h)
     m = p.fn(MAP_INDEXES)
     # range check and duplicate check
     rng, dup = False, False
@@ -110,7 +130,7 @@ def r2_no_panic(ctx):
 
 
 def run(ctx):
-    ctx.rule("R1", "MerkleTree::verify / verify_batch accept only behind the root comparison over values derived from leaf, proof and index; get_root / into_openings validate indexes with map_indexes(..)?; map_indexes has the range and duplicate checks", 6)
+    ctx.rule("R1", "MerkleTree::verify / verify_batch accept only behind the root comparison over values derived from leaf, proof and index; get_root / into_openings validate indexes with map_indexes(..)? and reject a leaf count different from the index count; map_indexes has the range and duplicate checks", 8)
     ctx.rule("R2", "no undischarged panic / abort site reachable from BatchMerkleProof::{read_from, get_root, into_openings}, verify_batch, get_proof, map_indexes, normalize_indexes (A5)", 30)
     ctx.rule("ENTRY", "entry points resolved", 1)
     ctx.guard("R1", r1_rejection)
